@@ -51,6 +51,25 @@ CHECKS = {
              "widening a fixed-point adder operand never narrows the result.",
         note="Trusted as C16 plus the ceil(log2 n) contract.  Maximum/Concatenate/Average/Multiply/Dot merges are outside the claim.",
         ref="DESIGN.md section 3 C17"),
+    "C06": dict(
+        level="model_checking", engine="tfg2smt",
+        technique="bounded SMT (QF_BVFP) over the gradient graph TensorFlow autodiff builds from the real quantizer, compared with the surrogate's derivative for all inputs",
+        text="x -> d q(x)/dx is traced through tf.GradientTape, translated op by op and compared for every finite float32 input (minus the "
+             "kinks of the surrogate) with a harness-side derivative; identical terms are discharged by hash-consing, the others by the "
+             "solver, each with a finiteness query.",
+        note="Trusted as C01 plus the gradient-op semantics (ReluGrad, LeakyReluGrad, TanhGrad, Select/Min/Max gradients) validated against "
+             "eager autodiff on every run.  Quantizers outside the property's catalogue (tanh/sigmoid/ulaw/hswish/bernoulli) are not covered.",
+        ref="DESIGN.md section 3 C06"),
+    "C07": dict(
+        level="model_checking", engine="tfg2smt",
+        technique="bounded SMT over the variable-backed quantizer graph with qnoise_factor as a second symbolic input (opaque product with sound lemmas); "
+                  "scheduler code executed symbolically (z3 LIA/LRA) with one inductive step",
+        text="Quantizers are traced in variable-backed mode so the factor f is a graph input; the solver decides for all (x,f) the f=0, f=1 and "
+             "general mixing clauses and the equality of constructor/update-API/variable-backed objects.  QNoiseScheduler's Python code runs "
+             "on z3-backed values: range, end points, monotonicity and one inductive update step for both hook routes.",
+        note="Trusted: as C01/C03; products with the symbolic factor are opaque values constrained by lemmas valid for every IEEE "
+             "multiplication; np.power contract.  get_quantizers over real layers is a concrete auxiliary check.",
+        ref="DESIGN.md section 3 C07"),
 }
 
 NOT_YET = "check not built yet in this revision (see DESIGN.md section 7 build order)"
